@@ -24,11 +24,17 @@ Ltac Zify.zify_post_hook ::= Z.div_mod_to_equations.
 
 Record playout := { pl_size : Z; pl_nslots : Z; pl_og : Z; pl_exit : label; pl_n0 : label }.
 
-Definition pro (size : Z) : list instr := [LDBM 1; STAI 0; LDAC (- size); ADD; STAM 1].
-Definition epi (exitl : label) (size : Z) : list instr := [LABEL exitl; LDBM 1; LDAC size; ADD; STAM 1; LDBI size; BRB].
+(* xcmp's prologue and epilogues; a frame of size 0 (a leaf procedure without locals) leaves the stack pointer alone *)
+Definition pro5 (size : Z) : list instr := [LDBM 1; STAI 0; LDAC (- size); ADD; STAM 1].
+Definition epi7 (exitl : label) (size : Z) : list instr := [LABEL exitl; LDBM 1; LDAC size; ADD; STAM 1; LDBI size; BRB].
+Definition epif8 (exitl : label) (size : Z) : list instr :=
+  [LABEL exitl; LDBM 1; STAI (size + 1); LDAC size; ADD; STAM 1; LDBI size; BRB].
+Definition pro (size : Z) : list instr := if 0 <? size then pro5 size else [LDBM 1; STAI 0].
+Definition epi (exitl : label) (size : Z) : list instr :=
+  if 0 <? size then epi7 exitl size else [LABEL exitl; LDBM 1; LDBI size; BRB].
 (* a function's epilogue first stores the result (areg) to the caller's outgoing word 1 *)
 Definition epif (exitl : label) (size : Z) : list instr :=
-  [LABEL exitl; LDBM 1; STAI (size + 1); LDAC size; ADD; STAM 1; LDBI size; BRB].
+  if 0 <? size then epif8 exitl size else [LABEL exitl; LDBM 1; STAI (size + 1); LDBI size; BRB].
 Definition epi_of (isf : bool) (exitl : label) (size : Z) : list instr := if isf then epif exitl size else epi exitl size.
 (* frame offset of the first formal above the frame: after the link word, and for a function the result word *)
 Definition foff (pr : proc) : Z := if is_func pr then 2 else 1.
@@ -181,7 +187,7 @@ Section Prog.
   Notation Cm := (C P m0).
 
   Definition numbers_ok (pr : proc) (L : playout) : Prop :=
-    0 < pl_size L <= maxframe /\ first_temp pr <= pl_nslots L /\ 0 <= pl_og L /\ pl_nslots L + pl_og L <= pl_size L.
+    0 <= pl_size L <= maxframe /\ first_temp pr <= pl_nslots L /\ 0 <= pl_og L /\ pl_nslots L + pl_og L <= pl_size L.
 
   (* a frame of the simple procedure pr at stack pointer sp *)
   Definition frame_ok (pr : proc) (fn ln : list string) (L : playout) (sp : Z) : Prop :=
@@ -288,12 +294,12 @@ Section Prog.
   Proof. intros H. unfold wrap. apply Z.mod_small. unfold MEMW, W in *. lia. Qed.
 
   (* prologue: the link word goes to the caller's frame word 0, the stack pointer comes down by size *)
-  Lemma run_pro size m pos nxt link b inp sp :
-    code_at Cm lab pos (pro size) nxt -> Cm m -> rd m 1 = sp -> 0 <= sp < MEMW -> ~ P sp -> 0 <= sp - size < MEMW -> nxt < W ->
+  Lemma run_pro5 size m pos nxt link b inp sp :
+    code_at Cm lab pos (pro5 size) nxt -> Cm m -> rd m 1 = sp -> 0 <= sp < MEMW -> ~ P sp -> 0 <= sp - size < MEMW -> nxt < W ->
     0 <= link < W ->
     taus inp (mk pos link b 0 m) (mk nxt (sp - size) sp 0 (wr (wr m sp link) 1 (sp - size))).
   Proof.
-    intros Hc HC H1 Hsp HnP Hsz Hn Hl. unfold pro in Hc.
+    intros Hc HC H1 Hsp HnP Hsz Hn Hl. unfold pro5 in Hc.
     one_instr Hc p1 Hi1. one_instr Hc p2 Hi2. one_instr Hc p3 Hi3. one_instr Hc p4 Hi4. one_instr Hc p5 Hi5. subst p5.
     pose proof (instr_at_le _ _ _ _ _ Hi1) as L1. pose proof (instr_at_le _ _ _ _ _ Hi2) as L2. pose proof (instr_at_le _ _ _ _ _ Hi3) as L3.
     pose proof (instr_at_le _ _ _ _ _ Hi4) as L4. pose proof (instr_at_le _ _ _ _ _ Hi5) as L5.
@@ -320,12 +326,12 @@ Section Prog.
   Qed.
 
   (* epilogue: the stack pointer goes up by size, control returns through the link word *)
-  Lemma run_epi exitl size m pos nxt a b inp sp' :
-    code_at Cm lab pos (epi exitl size) nxt -> Cm m -> rd m 1 = sp' -> 0 < sp' -> 0 < size -> sp' + size < MEMW -> nxt < W ->
+  Lemma run_epi7 exitl size m pos nxt a b inp sp' :
+    code_at Cm lab pos (epi7 exitl size) nxt -> Cm m -> rd m 1 = sp' -> 0 < sp' -> 0 < size -> sp' + size < MEMW -> nxt < W ->
     exists a' b', lab exitl = pos /\
       taus inp (mk pos a b 0 m) (mk (rd m (sp' + size)) a' b' 0 (wr m 1 (sp' + size))).
   Proof.
-    intros Hc HC H1 Hsp Hsz Htop Hn. unfold epi in Hc.
+    intros Hc HC H1 Hsp Hsz Htop Hn. unfold epi7 in Hc.
     one_instr Hc p0 Hi0. cbn [instr_at] in Hi0. destruct Hi0 as [<- Hlab].
     one_instr Hc p1 Hi1. one_instr Hc p2 Hi2. one_instr Hc p3 Hi3. one_instr Hc p4 Hi4. one_instr Hc p5 Hi5. one_instr Hc p6 Hi6. subst p6.
     pose proof (instr_at_le _ _ _ _ _ Hi1) as L1. pose proof (instr_at_le _ _ _ _ _ Hi2) as L2. pose proof (instr_at_le _ _ _ _ _ Hi3) as L3.
@@ -357,13 +363,13 @@ Section Prog.
   Qed.
 
   (* a function's epilogue: the result (areg) goes to the word above the link word first *)
-  Lemma run_epif exitl size m pos nxt a b inp sp' :
-    code_at Cm lab pos (epif exitl size) nxt -> Cm m -> rd m 1 = sp' -> 0 < sp' -> 0 < size -> sp' + size + 1 < MEMW ->
+  Lemma run_epif8 exitl size m pos nxt a b inp sp' :
+    code_at Cm lab pos (epif8 exitl size) nxt -> Cm m -> rd m 1 = sp' -> 0 < sp' -> 0 < size -> sp' + size + 1 < MEMW ->
     ~ P (sp' + size + 1) -> nxt < W ->
     exists a' b', lab exitl = pos /\
       taus inp (mk pos a b 0 m) (mk (rd m (sp' + size)) a' b' 0 (wr (wr m (sp' + size + 1) a) 1 (sp' + size))).
   Proof.
-    intros Hc HC H1 Hsp Hsz Htop HnP Hn. unfold epif in Hc.
+    intros Hc HC H1 Hsp Hsz Htop HnP Hn. unfold epif8 in Hc.
     one_instr Hc p0 Hi0. cbn [instr_at] in Hi0. destruct Hi0 as [<- Hlab].
     one_instr Hc p1 Hi1. one_instr Hc p1' Hi1'. one_instr Hc p2 Hi2. one_instr Hc p3 Hi3. one_instr Hc p4 Hi4. one_instr Hc p5 Hi5. one_instr Hc p6 Hi6. subst p6.
     pose proof (instr_at_le _ _ _ _ _ Hi1) as L1. pose proof (instr_at_le _ _ _ _ _ Hi1') as L1'. pose proof (instr_at_le _ _ _ _ _ Hi2) as L2.
@@ -402,7 +408,100 @@ Section Prog.
     eapply taus_trans; [exact T4|]. eapply taus_trans; [exact T5 | exact T6].
   Qed.
 
+  (* ---- the frame code for any size *)
+  Lemma run_pro size m pos nxt link b inp sp :
+    code_at Cm lab pos (pro size) nxt -> Cm m -> rd m 1 = sp -> 1 < sp < MEMW -> ~ P sp -> 0 <= size -> 0 <= sp - size < MEMW ->
+    nxt < W -> 0 <= link < W ->
+    exists a' b' m2, taus inp (mk pos link b 0 m) (mk nxt a' b' 0 m2) /\
+                     forall x, 0 <= x -> rd m2 x = rd (wr (wr m sp link) 1 (sp - size)) x.
+  Proof.
+    intros Hc HC H1 Hsp HnP Hs0 Hsz Hn Hl. unfold pro in Hc. destruct (0 <? size) eqn:Es.
+    - exists (sp - size), sp, (wr (wr m sp link) 1 (sp - size)). split; [|intros x _; reflexivity].
+      exact (run_pro5 size m pos nxt link b inp sp Hc HC H1 ltac:(lia) HnP Hsz Hn Hl).
+    - apply Z.ltb_ge in Es. assert (size = 0) by lia. subst size.
+      one_instr Hc p1 Hi1. one_instr Hc p2 Hi2. subst p2. pose proof (instr_at_le _ _ _ _ _ Hi2) as L2.
+      pose proof (exec_instr Cm lab m pos p1 (LDBM 1) link b inp eq_refl Hi1 HC eq_refl ltac:(lia)) as T1.
+      cbn [sem fst snd] in T1. rewrite H1 in T1.
+      assert (Hw : wrap (sp + 0) = sp) by (rewrite Z.add_0_r; apply wrap_small; lia).
+      assert (R2 : readable (STAI 0) link sp) by (cbn [readable]; rewrite Hw; apply in_mem_iff; lia).
+      pose proof (exec_instr Cm lab m p1 nxt (STAI 0) link sp inp eq_refl Hi2 HC R2 Hn) as T2.
+      cbn [sem fst snd] in T2. rewrite Hw in T2.
+      exists link, sp, (wr m sp link). split; [eapply taus_trans; eassumption|].
+      intros x Hx. rewrite Z.sub_0_r. destruct (Z.eq_dec x 1) as [->|Hx1].
+      + rewrite rd_wr_same. rewrite rd_wr_other; [exact H1 | lia | lia | lia].
+      + symmetry. apply rd_wr_other; [lia | exact Hx | congruence].
+  Qed.
+
+  (* epilogue of a procedure: stack pointer up (if the frame has words), return through the link word *)
+  Lemma run_epi exitl size m pos nxt a b inp sp' :
+    code_at Cm lab pos (epi exitl size) nxt -> Cm m -> rd m 1 = sp' -> 0 < sp' -> 0 <= size -> sp' + size < MEMW -> nxt < W ->
+    exists a' b' mf, lab exitl = pos /\ taus inp (mk pos a b 0 m) (mk (rd m (sp' + size)) a' b' 0 mf) /\
+      Cm mf /\ rd mf 1 = sp' + size /\ forall x, 0 <= x -> x <> 1 -> rd mf x = rd m x.
+  Proof.
+    intros Hc HC H1 Hsp Hs0 Htop Hn. unfold epi in Hc. destruct (0 <? size) eqn:Es.
+    - apply Z.ltb_lt in Es.
+      destruct (run_epi7 exitl size m pos nxt a b inp sp' Hc HC H1 Hsp Es Htop Hn) as (a' & b' & Hl & T).
+      exists a', b', (wr m 1 (sp' + size)). split; [exact Hl|]. split; [exact T|].
+      split; [apply Cm_wr; [exact HC | lia | exact HP1]|]. split; [apply rd_wr_same|].
+      intros x Hx Hx1. apply rd_wr_other; [lia | exact Hx | congruence].
+    - apply Z.ltb_ge in Es. assert (size = 0) by lia. subst size.
+      one_instr Hc p0 Hi0. cbn [instr_at] in Hi0. destruct Hi0 as [<- Hlab].
+      one_instr Hc p1 Hi1. one_instr Hc p2 Hi2. one_instr Hc p3 Hi3. subst p3.
+      pose proof (instr_at_le _ _ _ _ _ Hi1) as L1. pose proof (instr_at_le _ _ _ _ _ Hi2) as L2. pose proof (instr_at_le _ _ _ _ _ Hi3) as L3.
+      pose proof (exec_instr Cm lab m pos p1 (LDBM 1) a b inp eq_refl Hi1 HC eq_refl ltac:(lia)) as T1.
+      cbn [sem fst snd] in T1. rewrite H1 in T1.
+      assert (Hw : wrap (sp' + 0) = sp' + 0) by (apply wrap_small; lia).
+      assert (R2 : readable (LDBI 0) a sp') by (cbn [readable]; rewrite Hw; apply in_mem_iff; lia).
+      pose proof (exec_instr Cm lab m p1 p2 (LDBI 0) a sp' inp eq_refl Hi2 HC R2 ltac:(lia)) as T2.
+      cbn [sem fst snd] in T2. rewrite Hw in T2.
+      pose proof (exec_brb Cm lab m p2 nxt a (rd m (sp' + 0)) inp Hi3 HC) as T3.
+      exists a, (rd m (sp' + 0)), m. split; [exact Hlab|]. split; [eapply taus_trans; [exact T1|]; eapply taus_trans; [exact T2 | exact T3]|].
+      split; [exact HC|]. split; [lia|]. intros x _ _. reflexivity.
+  Qed.
+
+  (* epilogue of a function: the result (areg) goes to the word above the link word first *)
+  Lemma run_epif exitl size m pos nxt a b inp sp' :
+    code_at Cm lab pos (epif exitl size) nxt -> Cm m -> rd m 1 = sp' -> 0 < sp' -> 0 <= size -> sp' + size + 1 < MEMW ->
+    ~ P (sp' + size + 1) -> nxt < W ->
+    exists a' b' mf, lab exitl = pos /\ taus inp (mk pos a b 0 m) (mk (rd m (sp' + size)) a' b' 0 mf) /\
+      Cm mf /\ rd mf 1 = sp' + size /\ rd mf (sp' + size + 1) = a /\
+      forall x, 0 <= x -> x <> 1 -> x <> sp' + size + 1 -> rd mf x = rd m x.
+  Proof.
+    intros Hc HC H1 Hsp Hs0 Htop HnP Hn. unfold epif in Hc. destruct (0 <? size) eqn:Es.
+    - apply Z.ltb_lt in Es.
+      destruct (run_epif8 exitl size m pos nxt a b inp sp' Hc HC H1 Hsp Es Htop HnP Hn) as (a' & b' & Hl & T).
+      exists a', b', (wr (wr m (sp' + size + 1) a) 1 (sp' + size)). split; [exact Hl|]. split; [exact T|].
+      split; [apply Cm_wr; [apply Cm_wr; [exact HC | lia | exact HnP] | lia | exact HP1]|]. split; [apply rd_wr_same|].
+      split; [rewrite rd_wr_other; [apply rd_wr_same | lia | lia | lia]|].
+      intros x Hx Hx1 Hx2. rewrite rd_wr_other; [|lia | exact Hx | congruence]. apply rd_wr_other; [lia | exact Hx | congruence].
+    - apply Z.ltb_ge in Es. assert (size = 0) by lia. subst size.
+      one_instr Hc p0 Hi0. cbn [instr_at] in Hi0. destruct Hi0 as [<- Hlab].
+      one_instr Hc p1 Hi1. one_instr Hc p1' Hi1'. one_instr Hc p2 Hi2. one_instr Hc p3 Hi3. subst p3.
+      pose proof (instr_at_le _ _ _ _ _ Hi1) as L1. pose proof (instr_at_le _ _ _ _ _ Hi1') as L1'.
+      pose proof (instr_at_le _ _ _ _ _ Hi2) as L2. pose proof (instr_at_le _ _ _ _ _ Hi3) as L3.
+      pose proof (exec_instr Cm lab m pos p1 (LDBM 1) a b inp eq_refl Hi1 HC eq_refl ltac:(lia)) as T1.
+      cbn [sem fst snd] in T1. rewrite H1 in T1.
+      assert (Hw1 : wrap (sp' + (0 + 1)) = sp' + 0 + 1) by (replace (sp' + (0 + 1)) with (sp' + 0 + 1) by lia; apply wrap_small; lia).
+      assert (R1 : readable (STAI (0 + 1)) a sp') by (cbn [readable]; rewrite Hw1; apply in_mem_iff; lia).
+      pose proof (exec_instr Cm lab m p1 p1' (STAI (0 + 1)) a sp' inp eq_refl Hi1' HC R1 ltac:(lia)) as T1'.
+      cbn [sem fst snd] in T1'. rewrite Hw1 in T1'.
+      set (mr := wr m (sp' + 0 + 1) a) in *.
+      assert (HCr : Cm mr) by (apply Cm_wr; [exact HC | lia | exact HnP]).
+      assert (Hw : wrap (sp' + 0) = sp' + 0) by (apply wrap_small; lia).
+      assert (R2 : readable (LDBI 0) a sp') by (cbn [readable]; rewrite Hw; apply in_mem_iff; lia).
+      pose proof (exec_instr Cm lab mr p1' p2 (LDBI 0) a sp' inp eq_refl Hi2 HCr R2 ltac:(lia)) as T2.
+      cbn [sem fst snd] in T2. rewrite Hw in T2.
+      assert (Hr : rd mr (sp' + 0) = rd m (sp' + 0)) by (unfold mr; apply rd_wr_other; lia).
+      rewrite Hr in T2.
+      pose proof (exec_brb Cm lab mr p2 nxt a (rd m (sp' + 0)) inp Hi3 HCr) as T3.
+      exists a, (rd m (sp' + 0)), mr. split; [exact Hlab|].
+      split; [eapply taus_trans; [exact T1|]; eapply taus_trans; [exact T1'|]; eapply taus_trans; [exact T2 | exact T3]|].
+      split; [exact HCr|]. split; [unfold mr; rewrite rd_wr_other; [lia | lia | lia | lia]|].
+      split; [unfold mr; apply rd_wr_same|]. intros x Hx _ Hx2. unfold mr. apply rd_wr_other; [lia | exact Hx | congruence].
+  Qed.
+
   (* ---- frames of caller and callee *)
+
   Notation RelF pr L sp := (Rel pinfo (Dq_of sp) (frame_venv gaddr pr (pl_size L)) ge P m0 sp).
   Notation scratchF pr L sp := (scratch (Fr_of sp) (pl_size L) (pl_nslots L) (first_temp pr) (pl_og L) sp).
   Notation var_wordF pr L sp := (var_word (frame_venv gaddr pr (pl_size L)) sp).
@@ -453,15 +552,15 @@ Section Prog.
     - right. right. exists x. exact Ha.
   Qed.
 
-  Lemma callee_frame pr fn ln L sp pr' fn' ln' L' st m vs fr link :
+  Lemma callee_frame pr fn ln L sp pr' fn' ln' L' st m vs fr link m2 :
+    (forall x, 0 <= x -> rd m2 x = rd (wr (wr m sp link) 1 (sp - pl_size L')) x) ->
     frame_ok pr fn ln L sp -> simple_proc gaddr pr' fn' ln' -> numbers_ok pr' L' ->
     RelF pr L sp st m -> args_stored sp vs (foff pr') m -> Z.of_nat (List.length vs) + foff pr' <= pl_og L ->
     enter ge pr' vs st = inr fr ->
     frame_ok pr' fn' ln' L' (sp - pl_size L') /\
-    RelF pr' L' (sp - pl_size L') (set_stk (set_budget st (budget st - 1)) (fr :: stk st))
-         (wr (wr m sp link) 1 (sp - pl_size L')).
+    RelF pr' L' (sp - pl_size L') (set_stk (set_budget st (budget st - 1)) (fr :: stk st)) m2.
   Proof.
-    intros Hfr Hs' Hnum' HR Hargs Hlen Hent.
+    intros Hext Hfr Hs' Hnum' HR Hargs Hlen Hent.
     pose proof Hfr as (Hs & (Hsz & Hft & Hog & Hns) & Hlo & Htop & Htop2).
     pose proof Hnum' as (Hsz' & Hft1 & Hog' & Hns').
     pose proof (foff_range pr) as Hfo. pose proof (foff_range pr') as Hfo'.
@@ -474,11 +573,12 @@ Section Prog.
     { split; [exact Hs'|]. split; [exact Hnum'|]. split; [exact Hsp'|]. rewrite <- Hlv.
       pose proof (first_temp_len pr fn ln Hs). lia. }
     split; [exact Hfr'|].
-    assert (Hm2 : forall a, 0 <= a -> a <> sp -> a <> 1 -> rd (wr (wr m sp link) 1 (sp - pl_size L')) a = rd m a).
-    { intros a Ha Ha1 Ha2. rewrite rd_wr_other; [|lia | exact Ha | congruence]. apply rd_wr_other; [lia | exact Ha | congruence]. }
+    assert (Hm2 : forall a, 0 <= a -> a <> sp -> a <> 1 -> rd m2 a = rd m a).
+    { intros a Ha Ha1 Ha2. rewrite Hext by exact Ha. rewrite rd_wr_other; [|lia | exact Ha | congruence]. apply rd_wr_other; [lia | exact Ha | congruence]. }
     split; [|split; [|split; [|split]]].
-    - apply Cm_wr; [|lia | exact HP1]. apply Cm_wr; [exact HC | lia | apply HsP; lia].
-    - apply rd_wr_same.
+    - intros a Ha HPa. rewrite Hext by exact Ha. revert a Ha HPa.
+      apply Cm_wr; [|lia | exact HP1]. apply Cm_wr; [exact HC | lia | apply HsP; lia].
+    - rewrite Hext by lia. apply rd_wr_same.
     - split.
       + intros x a Hx.
         destruct (frame_venv_spec gaddr pr' fn' ln' _ x _ Hs' Hx) as [(j & _ & Hq)|[(i & _ & Hq)|(Hn & a0 & Ha0 & Hq)]]; try discriminate Hq.
@@ -577,6 +677,12 @@ Section Prog.
   Qed.
 
   (* ---- a procedure of the table, run from its entry label, meets the call specification of any caller frame *)
+  Lemma epi_label isf exitl size pos nxt : code_at Cm lab pos (epi_of isf exitl size) nxt -> lab exitl = pos.
+  Proof.
+    unfold epi_of, epif, epi, epif8, epi7. intros H. destruct isf; destruct (0 <? size); cbn [code_at] in H;
+      destruct H as (q & Hq & _); cbn [instr_at] in Hq; exact (proj2 Hq).
+  Qed.
+
   Lemma call_from_stmt f : Stmt_ok f -> Call_ok f.
   Proof.
     intros Hst pr fn ln L sp Hfr p pi vs st m link b inp Hp HR Hargs Hlen Hlink.
@@ -586,7 +692,7 @@ Section Prog.
     unfold invoke. rewrite Hfind, Hpf, Bool.eqb_reflx. cbn [negb].
     destruct (enter ge pr' vs st) as [u|fr] eqn:Hent; [exact I|].
     unfold tick. destruct (budget st <=? 0); [exact I|]. cbn [stk set_budget].
-    destruct (callee_frame pr fn ln L sp pr' fn' ln' L' st m vs fr link Hfr Hs' Hnum' HR Hargs Hlen Hent) as [Hfr' HR'].
+    destruct (callee_frame pr fn ln L sp pr' fn' ln' L' st m vs fr link _ (fun x _ => eq_refl) Hfr Hs' Hnum' HR Hargs Hlen Hent) as [Hfr' _].
     destruct (enter_frame ge gaddr pr' fn' ln' vs st fr Hs' Hent) as (_ & _ & _ & Hlv & _).
     pose proof Hfr as (Hs & (Hsz & Hft & Hog & Hns) & Hlo & Htop & Htop2).
     pose proof Hfr' as (_ & (Hsz' & Hft1 & Hog' & Hns') & Hlo' & Htop' & Htop2').
@@ -595,17 +701,20 @@ Section Prog.
     (* the code *)
     apply code_at_app in Hca. destruct Hca as (p1 & Hpro & Hca). apply code_at_app in Hca. destruct Hca as (p2 & Hbody & Hepi).
     pose proof (code_at_le _ _ _ _ _ Hpro) as L1. pose proof (code_at_le _ _ _ _ _ Hbody) as L2. pose proof (code_at_le _ _ _ _ _ Hepi) as L3.
-    assert (Hlab : lab (pl_exit L') = p2).
-    { pose proof Hepi as Hq. unfold epi_of, epif, epi in Hq. destruct (is_func pr'); cbn [code_at] in Hq;
-        destruct Hq as (q & Hq & _); cbn [instr_at] in Hq; exact (proj2 Hq). }
+    pose proof (epi_label _ _ _ _ _ Hepi) as Hlab.
     (* prologue *)
     pose proof HR as (HC & H1 & _).
-    pose proof (run_pro (pl_size L') m (lab (pf_entry pi)) p1 link b inp sp Hpro HC H1 ltac:(lia) ltac:(apply HsP; lia) ltac:(lia) ltac:(lia) Hlink) as Tpro.
+    destruct (run_pro (pl_size L') m (lab (pf_entry pi)) p1 link b inp sp Hpro HC H1 ltac:(lia) ltac:(apply HsP; lia) ltac:(lia) ltac:(lia) ltac:(lia) Hlink)
+      as (ap & bp & m2 & Tpro & Hm2).
     set (sp' := sp - pl_size L') in *.
-    set (m2 := wr (wr m sp link) 1 sp') in *.
+    set (mc := wr (wr m sp link) 1 sp') in *.
     set (st1 := set_stk (set_budget st (budget st - 1)) (fr :: stk st)) in *.
+    destruct (callee_frame pr fn ln L sp pr' fn' ln' L' st m vs fr link m2 Hm2 Hfr Hs' Hnum' HR Hargs Hlen Hent) as [_ HR2].
+    fold sp' st1 in HR2.
     (* body *)
-    pose proof (Hst pr' fn' ln' L' sp' Hfr' (body pr') (pl_n0 L') bc n' st1 Hcs m2 p1 p2 sp' sp inp HR' Hbody ltac:(lia) ltac:(lia) ltac:(lia)) as Hres.
+    pose proof (Hst pr' fn' ln' L' sp' Hfr' (body pr') (pl_n0 L') bc n' st1 Hcs m2 p1 p2 ap bp inp HR2 Hbody ltac:(lia) ltac:(lia) ltac:(lia)) as Hres.
+    assert (Hfoc : forall mb, frame_onlyF pr' L' sp' m2 mb -> frame_onlyF pr' L' sp' mc mb).
+    { intros mb Fb a Ha Hsc Hvw. rewrite (Fb a Ha Hsc Hvw). apply Hm2. exact Ha. }
     destruct (is_func pr') eqn:Eif; cbn [epi_of] in Hepi.
     - (* a function: the body must return a value; the epilogue stores it to the caller's word sp + 1 *)
       assert (Hf2 : foff pr' = 2) by (unfold foff; rewrite Eif; reflexivity).
@@ -613,43 +722,38 @@ Section Prog.
       + destruct Hres as (outs & z & b1 & mb & -> & Hz & Rb & HRb & Pb & Fb). rewrite Hlab in Rb. cbn [ret_ok].
         pose proof HRb as (HCb & H1b & _).
         destruct (run_epif (pl_exit L') (pl_size L') mb p2 endp (z mod W) b1 inp sp' Hepi HCb H1b ltac:(lia) ltac:(lia)
-                    ltac:(unfold sp'; lia) ltac:(apply HsP; unfold sp'; lia) Hend) as (a2 & b2 & _ & Tepi).
-        replace (sp' + pl_size L' + 1) with (sp + 1) in Tepi by (unfold sp'; lia).
-        replace (sp' + pl_size L') with sp in Tepi by (unfold sp'; lia).
-        set (mf := wr (wr mb (sp + 1) (z mod W)) 1 sp) in *.
-        assert (HCf : Cm mf) by (apply Cm_wr; [apply Cm_wr; [exact HCb | lia | apply HsP; lia] | lia | exact HP1]).
-        destruct (caller_back pr fn ln L sp pr' fn' ln' L' st m vs fr link s2 mb mf outs Hfr Hfr' HR Hlv Hlen HRb Pb Fb HCf)
+                    ltac:(unfold sp'; lia) ltac:(apply HsP; unfold sp'; lia) Hend) as (a2 & b2 & mf & _ & Tepi & HCf & Hf1 & Hfr1 & Hfo).
+        replace (sp' + pl_size L' + 1) with (sp + 1) in * by (unfold sp'; lia).
+        replace (sp' + pl_size L') with sp in * by (unfold sp'; lia).
+        destruct (caller_back pr fn ln L sp pr' fn' ln' L' st m vs fr link s2 mb mf outs Hfr Hfr' HR Hlv Hlen HRb Pb (Hfoc mb Fb) HCf Hf1)
           as (Hlk & HRc & Pc & Fc).
-        { apply rd_wr_same. }
-        { intros a Ha Ha1 Ha2. unfold mf. rewrite rd_wr_other; [|lia | exact Ha | congruence].
-          apply rd_wr_other; [lia | exact Ha|]. intros Heq. exact (Ha2 Eif (eq_sym Heq)). }
+        { intros a Ha Ha1 Ha2. apply Hfo; [exact Ha | exact Ha1 | exact (Ha2 Eif)]. }
         rewrite Hlk in Tepi.
         exists outs, a2, b2, mf. split; [|split; [exact HRc|split; [exact Pc|split; [exact Fc|]]]].
         * eapply taus_runs; [exact Tpro|]. eapply runs_taus; [exact Rb | exact Tepi].
-        * intros _. exists z. split; [reflexivity|]. split; [exact Hz|].
-          unfold mf. rewrite rd_wr_other; [apply rd_wr_same | lia | lia | lia].
+        * intros _. exists z. split; [reflexivity|]. split; [exact Hz | exact Hfr1].
       + destruct Hres as (outs & Ex & (Q1 & Q2 & Q3 & Q4)). exists outs. split; [eapply taus_exits; [exact Tpro | exact Ex]|].
         exact (conj Q1 (conj Q2 (conj Q3 Q4))).
     - (* a procedure *)
-      assert (Hmf : forall mb, Cm mb -> Cm (wr mb 1 sp) /\ rd (wr mb 1 sp) 1 = sp /\
-                    (forall a, 0 <= a -> a <> 1 -> (is_func pr' = true -> a <> sp + 1) -> rd (wr mb 1 sp) a = rd mb a)).
-      { intros mb HCb. split; [apply Cm_wr; [exact HCb | lia | exact HP1]|]. split; [apply rd_wr_same|].
-        intros a Ha Ha1 _. apply rd_wr_other; [lia | exact Ha | congruence]. }
+      assert (Hback : forall outs s2 mb a1 b1, runs inp (mk p1 ap bp 0 m2) (map wr_ev outs) inp (mk p2 a1 b1 0 mb) ->
+                RelF pr' L' sp' s2 mb -> post st1 s2 outs -> frame_onlyF pr' L' sp' m2 mb ->
+                exists outs0 a' b' m', runs inp (mk (lab (pf_entry pi)) link b 0 m) (map wr_ev outs0) inp (mk link a' b' 0 m') /\
+                  RelF pr L sp (pop s2) m' /\ post st (pop s2) outs0 /\ frame_onlyF pr L sp m m' /\
+                  (false = true -> exists z, Vundef = Vint z /\ in_int z = true /\ rd m' (sp + 1) = z mod W)).
+      { intros outs s2 mb a1 b1 Rb HRb Pb Fb. pose proof HRb as (HCb & H1b & _).
+        destruct (run_epi (pl_exit L') (pl_size L') mb p2 endp a1 b1 inp sp' Hepi HCb H1b ltac:(lia) ltac:(lia) ltac:(unfold sp'; lia) Hend)
+          as (a2 & b2 & mf & _ & Tepi & HCf & Hf1 & Hfo).
+        replace (sp' + pl_size L') with sp in * by (unfold sp'; lia).
+        destruct (caller_back pr fn ln L sp pr' fn' ln' L' st m vs fr link s2 mb mf outs Hfr Hfr' HR Hlv Hlen HRb Pb (Hfoc mb Fb) HCf Hf1)
+          as (Hlk & HRc & Pc & Fc).
+        { intros a Ha Ha1 _. exact (Hfo a Ha Ha1). }
+        rewrite Hlk in Tepi.
+        exists outs, a2, b2, mf. split; [|split; [exact HRc|split; [exact Pc|split; [exact Fc|intros H; discriminate H]]]].
+        eapply taus_runs; [exact Tpro|]. eapply runs_taus; [exact Rb | exact Tepi]. }
       destruct (exec f ge (body pr') st1) as [[|v] s2|c s2|u]; cbn [bind rcase result_ok ret_ok] in *; [| | |exact I].
-      + destruct Hres as (outs & a1 & b1 & mb & Rb & HRb & Pb & Fb).
-        pose proof HRb as (HCb & H1b & _). destruct (Hmf mb HCb) as (M1 & M2 & M3).
-        destruct (caller_back pr fn ln L sp pr' fn' ln' L' st m vs fr link s2 mb (wr mb 1 sp) outs Hfr Hfr' HR Hlv Hlen HRb Pb Fb M1 M2 M3) as (Hlk & HRc & Pc & Fc).
-        destruct (run_epi (pl_exit L') (pl_size L') mb p2 endp a1 b1 inp sp' Hepi HCb H1b ltac:(lia) ltac:(lia) ltac:(unfold sp'; lia) Hend) as (a2 & b2 & _ & Tepi).
-        replace (sp' + pl_size L') with sp in Tepi by (unfold sp'; lia). rewrite Hlk in Tepi.
-        exists outs, a2, b2, (wr mb 1 sp). split; [|split; [exact HRc|split; [exact Pc|split; [exact Fc|intros H; discriminate H]]]].
-        eapply taus_runs; [exact Tpro|]. eapply runs_taus; [exact Rb | exact Tepi].
+      + destruct Hres as (outs & a1 & b1 & mb & Rb & HRb & Pb & Fb). exact (Hback outs s2 mb a1 b1 Rb HRb Pb Fb).
       + destruct Hres as (outs & z & b1 & mb & _ & _ & Rb & HRb & Pb & Fb). rewrite Hlab in Rb.
-        pose proof HRb as (HCb & H1b & _). destruct (Hmf mb HCb) as (M1 & M2 & M3).
-        destruct (caller_back pr fn ln L sp pr' fn' ln' L' st m vs fr link s2 mb (wr mb 1 sp) outs Hfr Hfr' HR Hlv Hlen HRb Pb Fb M1 M2 M3) as (Hlk & HRc & Pc & Fc).
-        destruct (run_epi (pl_exit L') (pl_size L') mb p2 endp (z mod W) b1 inp sp' Hepi HCb H1b ltac:(lia) ltac:(lia) ltac:(unfold sp'; lia) Hend) as (a2 & b2 & _ & Tepi).
-        replace (sp' + pl_size L') with sp in Tepi by (unfold sp'; lia). rewrite Hlk in Tepi.
-        exists outs, a2, b2, (wr mb 1 sp). split; [|split; [exact HRc|split; [exact Pc|split; [exact Fc|intros H; discriminate H]]]].
-        eapply taus_runs; [exact Tpro|]. eapply runs_taus; [exact Rb | exact Tepi].
+        exact (Hback outs s2 mb (z mod W) b1 Rb HRb Pb Fb).
       + destruct Hres as (outs & Ex & (Q1 & Q2 & Q3 & Q4)). exists outs. split; [eapply taus_exits; [exact Tpro | exact Ex]|].
         exact (conj Q1 (conj Q2 (conj Q3 Q4))).
   Qed.
@@ -689,14 +793,14 @@ End Prog.
 (* the code of the hypothesis Hprocs is the lowered procedure of the model cproc_lowered (which tools/c01.py, after
    the executable peephole pass, compares with xcmp -S): exit label 0, body labels from 1, nslots = size *)
 Lemma cproc_lowered_simple pinfo gaddr pool p size og code :
-  0 < size -> cproc_lowered pinfo gaddr pool p size og = Some code ->
+  cproc_lowered pinfo gaddr pool p size og = Some code ->
   exists bc n', cs pinfo (frame_venv gaddr p size) pool size size (first_temp p) og 0 (body p) 1 = Some (bc, n') /\
                 code = pro size ++ bc ++ epi_of (is_func p) 0 size.
 Proof.
-  intros Hs H. unfold cproc_lowered in H.
+  intros H. unfold cproc_lowered in H.
   destruct (cs pinfo (frame_venv gaddr p size) pool size size (first_temp p) og 0 (body p) 1) as [[bc n']|]; [|discriminate].
   cbn [obind] in H. inversion H; subst code. exists bc, n'. split; [reflexivity|].
-  unfold prologue, epilogue, pro, epi_of, epi, epif. apply Z.ltb_lt in Hs. rewrite Hs. destruct (is_func p); reflexivity.
+  unfold prologue, epilogue, pro, pro5, epi_of, epi, epif, epi7, epif8. destruct (0 <? size); destruct (is_func p); reflexivity.
 Qed.
 
 (* the hypotheses of Section Prog, as one proposition *)
